@@ -235,6 +235,9 @@ package check
 //@   ensures[changed-or-given-content-is-parsed-and-traversed] changeFlag && handleResult != results.FileHandleReadErr ==>
 //@        hits("CreateParser#0") == 1 && hits("BeginAnalyze#0") == 1 && hits("HandleFirstTraverseAST#0") == 1 && hits("AnalysisAllComment#0") == 1
 //@   ensures[given-content-is-never-short-cut] content != nil ==> changeFlag
+// the stored text is dropped (nil) when the caller does not ask to cache it - the start-up scan does not -, and a nil
+// text compares equal to the text of an EMPTY file: the short cut needs a cached copy to compare with
+//@   ensures[short-cut-only-against-a-cached-copy-of-the-analysed-text] !changeFlag ==> beforeStruct.Contents != nil
 //@   at call bytes.Equal#0 before assert[short-cut-compares-the-stored-text-with-the-new-one] arg0 == beforeStruct.Contents && arg1 == f.Contents
 //@   at call CreateParser#0 before assert[parser-gets-the-text-under-analysis] arg0 == f.Contents && streq(arg1, luaFile)
 //@   at call InsertError#0 before assert[every-syntax-error-becomes-a-type-1-diagnostic] arg1 == common.CheckErrorSyntax && arg2 == oneErr.ErrStr && arg3 == oneErr.Loc
